@@ -5,7 +5,7 @@ import PydjinniModel.Gen.Types
 namespace Pydjinni.Gen
 
 /-- `ObjcBaseType.namespace` -/
-def objcNamespace (c : ObjcCfg) (ns : List String) : String := convert c.tyStyle ("_".intercalate ns)
+def objcNamespace (c : ObjcCfg) (ns : List String) : String := convert c.tyStyle (joinS "_" ns)
 
 /-- `ObjcBaseType.typename` of a declared (non-function) type -/
 def objcUserTypename (c : ObjcCfg) (u : UInfo) : String :=
@@ -27,25 +27,29 @@ def objcAnnotation (t : Option RType) (macroStyle : Bool) : String :=
 
 /-- the text of a block type from its parts (`ObjcFunction.typename` with the caret part as a parameter) -/
 def blockText (ret : String) (caret : String) (params : List String) (noexcept : Bool) : String :=
-  ret ++ " " ++ caret ++ "(" ++ ", ".intercalate (params ++ (if noexcept then [] else ["NSError* _Nullable * _Nonnull"])) ++ ")"
+  ret ++ " " ++ caret ++ "(" ++ joinS ", " (params ++ (if noexcept then [] else ["NSError* _Nullable * _Nonnull"])) ++ ")"
+
+/-- the last steps of `type_decl` on the computed base name: `id<…>` for interface parameters, generic arguments,
+    the pointer star -/
+def objcShape (d : TDef) (parameter boxed optional : Bool) (typename : String) (args : List String) : String :=
+  let isIfaceParam := d.prim == .interface && parameter
+  applyArgs (if isIfaceParam then "id<" ++ typename ++ ">" else typename) args ++
+    (if (!isIfaceParam && objcPointer d) || boxed || (optional && d.prim != .function) then " *" else "")
 
 mutual
-/-- `type_decl(type_ref, parameter, boxed)`.
+/-- `type_decl(type_ref, parameter, boxed)` -/
+def objcTypeDecl (c : ObjcCfg) : RType → Bool → Bool → String
+  | .mk d args optional, parameter, boxed =>
+    objcShape d parameter boxed optional (objcBase c d (boxed || optional) optional) (objcTypeDecls c args)
+/-- `type_def.objc.boxed if boxed or optional else type_def.objc.typename`.
     For a function type `type_def.objc.typename` is `<ret> (^)(<params>)` and `type_decl` substitutes
     `(^ _Nullable)` / `(^ _Nonnull)` for `(^)` (`str.replace`; the text has exactly one `(^)` because nested
     block types have already been substituted): modelled by building the text with the caret part directly. -/
-def objcTypeDecl (c : ObjcCfg) : RType → Bool → Bool → String
-  | .mk d args optional, parameter, boxed =>
-    let typename := match d with
-      | .builtin b => if boxed || optional then b.objcBoxed else b.objcTypename
-      | .user u => objcUserTypename c u
-      | .func _ _ noexcept params ret =>
-        blockText (objcTypeDeclO c ret) (if optional then "(^ _Nullable)" else "(^ _Nonnull)") (objcFnParams c params) noexcept
-    let generics := if args.isEmpty then "" else "<" ++ ", ".intercalate (objcTypeDecls c args) ++ ">"
-    let isIfaceParam := d.prim == .interface && parameter
-    let typename := if isIfaceParam then "id<" ++ typename ++ ">" else typename
-    let pointer := if isIfaceParam then false else objcPointer d
-    typename ++ generics ++ (if pointer || boxed || (optional && d.prim != .function) then " *" else "")
+def objcBase (c : ObjcCfg) : TDef → Bool → Bool → String
+  | .builtin b, boxedOrOptional, _ => if boxedOrOptional then b.objcBoxed else b.objcTypename
+  | .user u, _, _ => objcUserTypename c u
+  | .func _ _ noexcept params ret, _, optional =>
+    blockText (objcTypeDeclO c ret) (if optional then "(^ _Nullable)" else "(^ _Nonnull)") (objcFnParams c params) noexcept
 /-- the parameter list of a block type: `type_decl(p, parameter=True) + " " + annotation(p, macro_style=True)` -/
 def objcFnParams (c : ObjcCfg) : List RType → List String
   | [] => []
